@@ -51,8 +51,12 @@ def gen_random_schedule(rng):
             acts.append(("Init", t))
         elif k < 0.28:
             acts.append(("Enter", t))
-        elif k < 0.58:
+        elif k < 0.50:
             acts.append(("Probe", t, fresh()))
+        elif k < 0.55:
+            acts.append(("HookBegin", t))
+        elif k < 0.60:
+            acts.append(("HookEnd", t, PRED + fresh()))
         elif k < 0.66:
             acts.append(("Check", t))
         elif k < 0.72:
@@ -84,8 +88,10 @@ def gen_executor_schedule(rng):
         prog = []
         for _ in range(length):
             k = rng.random()
-            if k < 0.6:
+            if k < 0.45:
                 prog.append(("Probe", t, fresh()))
+            elif k < 0.62:       # a predicate callback: other threads (and the main thread) may act in between
+                prog += [("HookBegin", t), ("HookEnd", t, PRED + fresh())]
             elif k < 0.75:
                 prog.append(("Check", t))
             elif k < 0.88:
@@ -119,6 +125,13 @@ def gen_executor_schedule(rng):
     return n, acts
 
 
+PRED = 1000000      # events >= PRED are predicate events (Models/C32.v is_pred)
+
+# abandoned inside a predicate callback, resumes after a later test was harvested (Proofs/C32.v inhook_schedule)
+INHOOK = (3, [("Init", 1), ("Enter", 1), ("Probe", 1, 10), ("HookBegin", 1), ("Stop",), ("Harvest", 1),
+              ("Init", 2), ("Enter", 2), ("Probe", 2, 20), ("Exit", 2), ("Harvest", 2),
+              ("HookEnd", 1, PRED + 7), ("Probe", 1, 11), ("Exit", 1)])
+
 WAKE = (3, [("Init", 1), ("Enter", 1), ("Probe", 1, 10), ("Stop",), ("Harvest", 1), ("Init", 2), ("Enter", 2),
             ("Probe", 2, 20), ("Probe", 1, 11), ("Exit", 1), ("Probe", 2, 21), ("Exit", 2), ("Harvest", 2)])
 
@@ -131,8 +144,9 @@ class _Worker(threading.Thread):
         self.tracer, self.abort_exc = tracer, abort_exc
         self.q, self.ack = queue.Queue(), queue.Queue()
         self.status = "Fresh"
-        self.view = ([], True)
+        self.view = ([], [], True)
         self.result = None
+        self.in_hook = False
 
     def run(self):
         while True:
@@ -145,9 +159,31 @@ class _Worker(threading.Thread):
             except BaseException as e:  # noqa: BLE001 - report, never die silently
                 self.ack.put(("error", repr(e)))
                 continue
-            tr = self.tracer.get_trace()
-            self.view = ([int(x) for x in tr.covered_line_ids], not self.tracer.is_disabled())
+            self.snapshot()
             self.ack.put(("ok", raised))
+
+    def snapshot(self):
+        tr = self.tracer.get_trace()
+        self.view = ([int(x) for x in tr.covered_line_ids], [int(x) for x in tr.executed_predicates],
+                     not self.tracer.is_disabled())
+
+    def yield_turn(self):
+        """Called from inside the operator of a predicate callback (tracing is temporarily disabled): give
+        the turn back to the scheduler and block until this thread's HookEnd is scheduled."""
+        self.in_hook = True
+        self.status = "InHook"
+        self.snapshot()
+        self.ack.put(("ok", False))          # answers the HookBegin command
+        while True:
+            cmd = self.q.get()               # the scheduler sends nothing but HookEnd to a thread inside a hook
+            if cmd is None:
+                raise SystemExit
+            if cmd[0] == "HookEnd":
+                self.pending_pred = cmd[2]
+                break
+            self.ack.put(("ok", False))      # (defensive) any other command is a no-op here
+        self.in_hook = False
+        self.status = "Live"
 
     def do(self, cmd):
         """Program-order guards mirror the control flow of TestCaseExecutor._execute_test_case: a thread
@@ -159,6 +195,38 @@ class _Worker(threading.Thread):
             if self.status == "Fresh":
                 tr.init_trace()
                 self.status = "Live"
+            return False
+        if kind == "HookEnd":
+            return False                      # not inside a hook: nothing to complete
+        if kind == "HookBegin":
+            if self.status != "Live":
+                return False
+            from pynguin.instrumentation.tracer import PynguinCompare
+
+            worker = self
+
+            class Operand:
+                """__eq__ is the code under test's operator: it yields the turn, once."""
+                def __init__(self):
+                    self.pred = None
+                    self.yielded = False
+
+                def __eq__(self, other):
+                    if not self.yielded:
+                        self.yielded = True
+                        worker.yield_turn()
+                    return True
+
+                __hash__ = None
+
+            a, b = Operand(), Operand()
+            b.yielded = True
+            holder = _PredId(self)
+            try:
+                tr.executed_compare_predicate(a, b, holder, PynguinCompare.EQ)
+            except self.abort_exc:
+                self.status = "Aborting"
+                return True
             return False
         if kind == "Exit":
             if self.status == "Live":
@@ -186,6 +254,28 @@ class _Worker(threading.Thread):
             self.status = "Aborting"
             return True
         return False
+
+
+class _PredId:
+    """Predicate identifier whose value is only known when the scheduler issues HookEnd.  The real hook uses
+    the identifier (as a dict key) only after the operator returned; the value is frozen at that first use."""
+    def __init__(self, worker):
+        self.worker = worker
+        self.value = None
+
+    def _v(self):
+        if self.value is None:
+            self.value = self.worker.pending_pred
+        return self.value
+
+    def __hash__(self):
+        return hash(self._v())
+
+    def __eq__(self, other):
+        return self._v() == (other._v() if isinstance(other, _PredId) else other)
+
+    def __int__(self):
+        return self._v()
 
 
 def run_schedule(n, acts, imp):
@@ -225,7 +315,9 @@ def run_schedule(n, acts, imp):
         if ident is not None:
             cur = next((i for i, w in enumerate(workers) if w.ident == ident), -1)
         codes = {"Fresh": 0, "Live": 1, "Aborting": 2, "Finished": 3, "Done": 4}
-        threads = [(codes[w.status], w.view[1], w.view[0], results.get(i)) for i, w in enumerate(workers)]
+        codes["InHook"] = 5
+        threads = [(codes[w.status], w.view[2], w.view[0], list(w.view[1]), results.get(i))
+                   for i, w in enumerate(workers)]
     finally:
         for w in workers:
             w.q.put(None)
@@ -242,8 +334,8 @@ def detect_guard():
 def c_action(a):
     if a[0] == "Stop":
         return "C32.Stop"
-    if a[0] == "Probe":
-        return f"C32.Probe {cnat(a[1])} {cZ(a[2])}"
+    if a[0] in ("Probe", "HookEnd"):
+        return f"C32.{a[0]} {cnat(a[1])} {cZ(a[2])}"
     return f"C32.{a[0]} {cnat(a[1])}"
 
 
@@ -256,7 +348,8 @@ def c_result(r):
 
 
 def c_case(guard, imp, acts, o):
-    threads = clist(f"({cZ(c)}, {cbool(en)}, {clist(cZ(x) for x in tr)}, {c_result(r)})" for c, en, tr, r in o["threads"])
+    threads = clist(f"({cZ(c)}, {cbool(en)}, {clist(cZ(x) for x in tr)}, {clist(cZ(x) for x in pr)}, {c_result(r)})"
+                    for c, en, tr, pr, r in o["threads"])
     cur = copt(None if o["current"] is None else cnat(max(o["current"], 0) if o["current"] >= 0 else 4999))
     return ("{| C32.c_guard := %s; C32.c_imp := %s; C32.c_sched := %s; C32.c_raised := %s; C32.c_current := %s; "
             "C32.c_threads := %s |}" % (cbool(guard), clist(cZ(x) for x in imp), clist(c_action(a) for a in acts),
@@ -268,10 +361,10 @@ def oracle_schedule(n, acts, imp, o):
     a harvested result that this thread did not probe itself (or the import trace)."""
     own = {t: set(imp) for t in range(n)}
     for a in acts:
-        if a[0] == "Probe":
+        if a[0] in ("Probe", "HookEnd"):
             own[a[1]].add(a[2])
-    for t, (_, _, tr, res) in enumerate(o["threads"]):
-        extra = [x for x in tr if x not in own[t]]
+    for t, (_, _, tr, pr, res) in enumerate(o["threads"]):
+        extra = [x for x in list(tr) + list(pr) if x not in own[t]]
         if extra:
             return ("pollution:thread-trace", f"trace of thread {t} holds events {extra} probed by other threads")
         if res and res[0] == "ROk":
@@ -285,8 +378,11 @@ def oracle_schedule(n, acts, imp, o):
 # real executor sessions
 def run_session(seed, n, base: Path, attempt=0):
     d = base / f"s{seed}-{attempt}"
-    sc = {"dir": str(d), "seed": seed, "n": n, "max_timeout": 1, "per_stmt": 1}
-    wd = (120 + 8 * n) * (1 + attempt)
+    # unequal limits (maximum 2 s, 1 s per statement) so that the two join timeouts can be told apart; every
+    # session starts with a test that is abandoned inside a sleeping __eq__ (predicate callback)
+    sc = {"dir": str(d), "seed": seed, "n": n, "max_timeout": 2, "per_stmt": 1,
+          "first": ["spin_eq", "quick1", "other_short", "busy"]}
+    wd = (180 + 10 * n) * (1 + attempt)
     p = subprocess.Popen([sys.executable, str(Path(__file__).with_name("_c32_exec.py")), json.dumps(sc)],
                          stdout=subprocess.PIPE, stderr=subprocess.PIPE, text=True, env=vlib.impl_env(),
                          start_new_session=True)
@@ -305,7 +401,7 @@ def run_session(seed, n, base: Path, attempt=0):
     return None, "driver-crash: " + (err or out)[-1500:]
 
 
-FIELDS = ["lines", "code_objects", "true", "false", "true_zero", "false_zero"]
+FIELDS = ["lines", "code_objects", "predicates", "true", "false", "true_zero", "false_zero"]
 
 
 def oracle_session(log):
@@ -314,6 +410,27 @@ def oracle_session(log):
     max_t, per = log["max_timeout"], log["per_stmt"]
     for i, r in enumerate(log["session"]):
         tmo = min(max_t, per * r["size"])
+        # the two waits of execute, as passed to Thread.join (model: exec_duration tmo maxT)
+        j = r.get("joins", [])
+        if j and j[0] != tmo:
+            fails.append((f"timeout:first-join:{r['name']}", f"execute waited {j[0]} s for a {r['size']}-statement test; "
+                          f"min(maximum={max_t}, per_statement={per} * size) = {tmo}", r))
+        if len(j) > 1 and (j[1] is None or j[1] > max_t):
+            fails.append((f"timeout:grace-join-exceeds-maximum:{r['name']}", f"after the timeout execute waits {j[1]} s more for "
+                          f"the abandoned thread of a {r['size']}-statement test; the bound is maximum_test_execution_timeout "
+                          f"= {max_t} s (timeout reported after up to {tmo}+{j[1]} s instead of {tmo}+{max_t} s)", r))
+        elif len(j) > 1 and j[1] != max_t:
+            fails.append((f"timeout:grace-join:{r['name']}", f"grace join of {j[1]} s, expected {max_t} s", r))
+        # a returned result must never change afterwards (abandoned threads that wake up later)
+        fin = r.get("final")
+        if fin is not None:
+            for f in FIELDS + ["exceptions", "timeout"]:
+                if fin[f] != r[f]:
+                    extra = [x for x in fin[f] if x not in r[f]] if isinstance(fin[f], list) else fin[f]
+                    fails.append((f"pollution:late:{f}:{r['name']}", f"the result of execution {i} ({r['name']}) changed after it "
+                                  f"was returned: {f} gained {extra} (an abandoned execution wrote into it)",
+                                  {"returned": r[f], "at_end_of_session": fin[f], "execution": i}))
+                    break
         if r["kind"] == "looping":
             if r["timeout"] and r["main_stops"] < 1:
                 lost += 1            # aborted early by a foreign __exit__: still reported as a timeout
@@ -322,7 +439,7 @@ def oracle_session(log):
             if r["wall"] > tmo + max_t + GRACE:
                 fails.append((f"timeout:late:{r['name']}", f"timeout of {r['name']} reported after {r['wall']} s "
                               f"(bound {tmo}+{max_t} s, grace {GRACE} s)", r))
-            if r["lines"] or r["code_objects"] or r["true"] or r["false"] or r["exceptions"]:
+            if r["lines"] or r["code_objects"] or r["true"] or r["false"] or r["exceptions"] or r["predicates"]:
                 fails.append((f"timeout:result-not-empty:{r['name']}", "timed-out result carries trace data", r))
             continue
         ref = log["reference"][r["name"]]
@@ -355,7 +472,7 @@ def run(ctx: vlib.Ctx):
     base = ctx.mkscratch() / "sessions"
     base.mkdir(parents=True, exist_ok=True)
     seeds = list(corpus["session_seeds"]) + [ctx.rng.randrange(10 ** 6) for _ in range(2 if ctx.quick else 14)]
-    n_exec = 16 if ctx.quick else 40
+    n_exec = 14 if ctx.quick else 36
     pool = cf.ThreadPoolExecutor(max_workers=4 if ctx.quick else 8)
     futs = [(sd, pool.submit(run_session, sd, n_exec, base)) for sd in seeds]
 
@@ -364,6 +481,7 @@ def run(ctx: vlib.Ctx):
     ctx.notes.append(f"ExecutionTracer.__exit__ variant detected: {'guarded (stops only its own thread)' if guard else 'unconditional stop()'}")
     scheds = [(c["n"], [tuple(a) for a in c["sched"]], c["imp"]) for c in corpus["schedules"]]
     scheds.append((WAKE[0], WAKE[1], [7]))
+    scheds.append((INHOOK[0], INHOOK[1], [7]))
     for i in range(400 if ctx.quick else 6000):
         n, acts = gen_executor_schedule(ctx.rng) if i % 2 == 0 else gen_random_schedule(ctx.rng)
         imp = ctx.rng.choice([[], [], [1001], [1001, 1002, 1003]])
@@ -374,10 +492,11 @@ def run(ctx: vlib.Ctx):
         obs.append(o)
         cases.append(c_case(guard, imp, acts, o))
         n_abort = sum(o["raised"])
-        ctx.case_seen((n, acts, imp), nontrivial=any(a[0] == "Probe" for a in acts))
+        ctx.case_seen((n, acts, imp), nontrivial=any(a[0] in ("Probe", "HookEnd") for a in acts))
         ctx.count("sched:threads:%d" % n)
         ctx.count("sched:aborts:%d" % min(n_abort, 4))
         ctx.count("sched:stops:%d" % min(sum(1 for a in acts if a[0] == "Stop"), 4))
+        ctx.count("sched:hooks-completed:%d" % min(sum(len(t[3]) for t in o["threads"]), 4))
         r = oracle_schedule(n, acts, imp, o)
         if r:
             n_or += 1
